@@ -49,6 +49,18 @@ def parse_val(s):
     return None if s == "N" else int(s)
 
 
+def split_args(toks):
+    """argument tokens of a request: values, then `k<i>=<value>` -> (positional values, {parameter index: value})"""
+    pos, kw = [], {}
+    for t in toks:
+        if t.startswith("k") and "=" in t:
+            i, v = t[1:].split("=")
+            kw[int(i)] = parse_val(v)
+        else:
+            pos.append(parse_val(t))
+    return pos, kw
+
+
 def node_s(cid, key):
     return "%d[%s]" % (cid, ",".join(val_s(k) for k in key))
 
@@ -111,9 +123,18 @@ class ExecImpl:
             self.linemaps = {}
             self.sources = {}
             self.cells_def = [dict(c) for c in cells]
+            # how formulas spell a cells of their own space: by its name (default); "mixed" (set in the first cells'
+            # description): call sites take turns between the name `c<i>`, a reference `zc<i>` that holds the cells,
+            # and the attribute path `_space.c<i>` - three routes into the library for one and the same call
+            self.call_style = cells[0].get("call_style") if cells else None
+            self.n_sites = 0
             for c in cells:
                 if not c.get("absent"):
                     self.define(c)
+            if self.call_style == "mixed":
+                for c in cells:
+                    if not c.get("absent"):
+                        setattr(self.space_obj(int(c.get("space", 0))), "zc%d" % c["id"], self.cells[c["id"]])
         mx.set_recursion(maxdepth if maxdepth else 100000)
         self.ex = mx.core.mxsys.executor
 
@@ -152,6 +173,9 @@ class ExecImpl:
 
     def _cell_name(self, c):
         p = self._path_to(self.cell_space.get(c, 0))
+        if p is None and self.call_style == "mixed":
+            self.n_sites += 1
+            return ("c%d", "zc%d", "_space.c%d")[self.n_sites % 3] % c
         return "c%d" % c if p is None else "%s.c%d" % (p, c)
 
     def _attr_path(self, r):
@@ -161,7 +185,7 @@ class ExecImpl:
     def define(self, c):
         # "lam": the formula is handed to modelx as a lambda expression instead of a def
         src, lm = self.rend.render("c%d" % c["id"], c["id"], c["nparams"], c["body"], lam=bool(c.get("lam")),
-                                   enforce_none=bool(c.get("enforce_none")))
+                                   enforce_none=bool(c.get("enforce_none")), defaults=c.get("defaults") or ())
         self.sources[c["id"]] = src
         self.linemaps[c["id"]] = lm
         cells = self.space_obj(int(c.get("space", 0))).new_cells("c%d" % c["id"], formula=src, is_cached=c["cached"])
@@ -213,9 +237,9 @@ class ExecImpl:
                     return "err Deleted"        # the id never had a cells: no handle to go through
                 if kind == "eval":
                     c = self.cells[int(op[1])]
-                    args = [parse_val(a) for a in op[2:]]
+                    args, kw = split_args(op[2:])
                     try:
-                        v = c(*args)
+                        v = c(*args, **{"a%d" % i: x for i, x in kw.items()})
                     except FormulaError:
                         e = mx.get_error()
                         tb = ",".join(node_s(self.cid_of_obj(n.obj), n.args) for n, _ in mx.get_traceback())
@@ -226,17 +250,13 @@ class ExecImpl:
                     eq = op.index("=")
                     args = tuple(parse_val(a) for a in op[2:eq])
                     v = parse_val(op[eq + 1])
-                    if c._is_valid():
-                        try:
-                            c._impl.formula.signature.bind(*args)
-                        except TypeError:
-                            return "err Type"
+                    # the library itself binds the subscript (and refuses one that does not bind)
                     c[args] = v
                     return "ok"
                 if kind == "clearat":
                     c = self.cells[int(op[1])]
-                    args = [parse_val(a) for a in op[2:]]
-                    c.clear_at(*args)
+                    args, kw = split_args(op[2:])
+                    c.clear_at(*args, **{"a%d" % i: x for i, x in kw.items()})
                     return "ok"
                 if kind == "clear":
                     self.cells[int(op[1])].clear()
@@ -254,7 +274,8 @@ class ExecImpl:
                 if kind == "setformula":
                     cid = int(op[1])
                     c = next(x for x in self.cells_def if x["id"] == cid)
-                    src, lm = self.rend.render("c%d" % cid, cid, c["nparams"], parse_sexp(" ".join(op[2:])))
+                    src, lm = self.rend.render("c%d" % cid, cid, c["nparams"], parse_sexp(" ".join(op[2:])),
+                                               defaults=c.get("defaults") or ())
                     self.cells[cid].formula = src
                     self.sources[cid] = src
                     self.linemaps[cid] = lm
@@ -368,6 +389,11 @@ def model_prelude(cells, refs, maxdepth):
         lines.append("allownone model " + tri(cells[0]["an_model"]))
     for r, v in refs.items():
         lines.append("ref %d %s" % (r, val_s(v)))
+    # signatures with default values (fixed per id for the whole history) before any formula: the reader of the model
+    # driver writes the defaults of the callee into every call
+    for c in cells:
+        if c.get("defaults"):
+            lines.append("sig %d %d %s" % (c["id"], c["nparams"], " ".join(val_s(v) for v in c["defaults"])))
     for c in cells:
         if not c.get("absent"):
             lines.append(cell_line(c))
